@@ -8,7 +8,7 @@
 EXTENDS OrderLaws_Univ, TLC, SequencesExt
 
 CONSTANT Tier               \* "quick" | "thorough"
-Universes == UniversesOf(Tier)
+Universes == LawUniversesOf(Tier)
 
 AllValid == \A U \in Universes : \A t \in U : ValidThing(t)
 
@@ -24,7 +24,8 @@ RefSatisfies == \A U \in Universes :
 \* non-vacuity: the universes contain equal-but-differently-spelled objects, and
 \* objects that differ only in one attribute of the key
 SpellingHashBreaks == Cardinality({U \in Universes :
-    \E x, y \in U : "Eq_hash" \in PairBad(RefObs("spelling", x, y))}) >= 2
+    LET K == [t \in U |-> RefKey(t)]
+    IN  \E x, y \in U : x # y /\ K[x] = K[y] /\ "Eq_hash" \in PairBad(RefObsK("spelling", x, y, K[x], K[y]))}) >= 2
 CoarseOrderBreaks == \E U \in Universes : \E x, y \in U :
     x.sub # y.sub /\ "Neq_ordered" \in PairBad([RefObs("key", x, y) EXCEPT !.lt = FALSE, !.gt = FALSE])
 
